@@ -1,5 +1,6 @@
 import Driver.Ops.Balance
 import TacklerModel.Model.Scale
+import TacklerModel.Model.BalanceLayout
 /-! C17: op `fmt` (decimal text + min + max ⇒ the figure as the reporters print it) and output kind
     `baltxt` of op `run` (the figures of the balance report at the case's scale: `balanceReport`).
     The scale is read from the case: `"scale": {"min": n, "max": m}`. -/
@@ -36,12 +37,15 @@ def jBalanceText (b : BalanceText) : Json :=
   Json.mkObj [("rows", .arr (b.rows.map jShownRow).toArray),
     ("deltas", .arr (b.deltas.map (fun (c, d) => Json.arr #[.str c, .str d])).toArray)]
 
-/-- output kind `baltxt`: `balanceReport` at the case's scale -/
+/-- output kind `baltxt`: `balanceReport` at the case's scale (`rows`, `deltas`: the figures), and the report's lines
+    after the title and its underline, character for character (`lines`: `BalLayout.bodyLines`) -/
 def outBalanceTxt : OutputFn := fun j st ts => do
   let names ← selNames j "msel_balance"
   match ← caseScale j with
   | .err => pure (Json.mkObj [("r", "CFGERR")])
   | .undef => pure (Json.mkObj [("r", "UNDEF")])
-  | .ok sc => pure (outcome (balanceReport st (exactSel names) sc (postsOf ts)) jBalanceText)
+  | .ok sc =>
+    pure (outcome ((fromIter st (exactSel names) (postsOf ts)).map (fun b => (balanceTxt sc b, BalLayout.bodyLines sc b)))
+      (fun (t, ls) => (jBalanceText t).setObjVal! "lines" (.arr (ls.map (fun l => Json.str (String.ofList l))).toArray)))
 
 end Ops
